@@ -141,9 +141,10 @@ DecNumRemoteReset(G) == IF G.cn.numRemoteReset > 0 THEN [G EXCEPT !.cn.numRemote
 TransitionAfter(G, k, isResetCounted) ==
     LET r == G.rec[k]
         closed == IsClosedR(r)
-        G1 == IF closed /\ ~r.resetAt
-              THEN LET U == Unlink(G, k[1]) IN IF isResetCounted THEN DecNumResetStreams(U) ELSE U
-              ELSE G
+        \* (since fix "un-count a locally reset stream when it leaves the expiration queue": the decrement no longer
+        \*  depends on the stream being closed - the RST_STREAM may still be queued when the reset expires)
+        G0 == IF isResetCounted /\ ~r.resetAt THEN DecNumResetStreams(G) ELSE G
+        G1 == IF closed /\ ~r.resetAt THEN Unlink(G0, k[1]) ELSE G0
         G2 == IF closed /\ ~IsSchedSt(r.state) /\ r.isCounted THEN DecNumStreams(G1, k) ELSE G1
         G3 == IF IsReleasedR(G2.rec[k]) THEN [G2 EXCEPT !.rec[k] = NoRec] ELSE G2      \* Ptr::remove: the slab slot is freed
     IN G3
@@ -303,8 +304,10 @@ RecvReset(s) ==
           THEN IF s >= G.cn.nextId THEN Commit(Finish([G EXCEPT !.err = PROTOCOL_ERROR]))     \* ensure_not_idle
                ELSE Commit(G)
           ELSE LET r == G.rec[k0]
-                   over == r.isPendingAccept /\ ~CanIncRemoteReset(G)
-                   G1 == IF r.isPendingAccept /\ ~over THEN [G EXCEPT !.cn.numRemoteReset = @ + 1] ELSE G
+                   \* (since fix "count a remote reset of a not yet accepted stream only when it takes effect")
+                   becomes == ~IsRemoteResetSt(r.state) /\ ~(IsClosedSt(r.state) /\ ~r.isPendingSend)
+                   over == r.isPendingAccept /\ becomes /\ ~CanIncRemoteReset(G)
+                   G1 == IF r.isPendingAccept /\ becomes /\ ~over THEN [G EXCEPT !.cn.numRemoteReset = @ + 1] ELSE G
                    \* State::recv_reset(frame, queued = stream.is_pending_send)
                    st2 == IF IsClosedSt(r.state) /\ ~r.isPendingSend THEN r.state
                           ELSE StClosedReset(IsRecvEndStreamSt(r.state), CANCEL, "Remote")
